@@ -34,6 +34,7 @@ STD_THROWERS = [
     (r"^std::function<.*>::operator\(\)$", "std::bad_function_call"),
     (r"^std::bitset<.*>::(set|reset|flip|test)$", "std::out_of_range"),
     (r"^std::locale::locale$", "std::runtime_error"),
+    (r"^std::(__cxx11::)?(vector|basic_string|deque)<.*>::(reserve|resize)$", "std::length_error"),
     (r"^std::basic_ios<.*>::exceptions$", "enables stream exceptions"),
 ]
 
@@ -415,6 +416,11 @@ def run(ctx):
     from .common import rule_noexcept
     rule_noexcept(ctx, "R04.7", lambda f: "/options/" in f.file or f.file.endswith(("lang/optional.hpp", "lang/string.hpp", "env/get.cpp", "env/get.hpp")),
                   "bad user input has to surface as parsing_error", minimum=40)
+    # ---- R04.13: handlers on the options path
+    ctx.rule("R04.13", "a catch handler on the options path neither lets an exception vanish nor turns parsing_error into another class")
+    from .common import rule_handlers
+    rule_handlers(ctx, "R04.13", lambda f: "/options/" in f.file or f.file.endswith(("lang/optional.hpp", "lang/string.hpp", "env/get.cpp", "env/get.hpp")),
+                  (ALLOWED,), "bad user input has to surface as parsing_error", minimum=40)
     # ---- R04.5: no spurious user-input error - two structural necessary conditions of "exactly when a documented condition holds"
     ctx.rule("R04.5", "no spurious error: every parse starts from emptied value state (R14.2) and an option claims a token only under its own name or letter (R01.5, R01.7, R01.8)")
     if ctx.prop == "C04" and not getattr(ctx, "_sharing", False):
@@ -531,6 +537,22 @@ def justify_thrower(ctx, prog, lg, fn, n, nm, env, st):
                 return True, "at(\"%s\") on %s: every constructor inserts that key and no function erases from the map" % (lits[0], short(fld))
             return False, "the key \"%s\" of %s is not a class invariant (%s)" % (lits[0], short(fld), "removed in %s" % sorted(set(removers)) if removers else "not inserted by every constructor")
         return False, "no justification known for at() on %s" % fmt(recv)[:40]
+    if nm in ("reserve", "resize"):
+        # length_error for a request above max_size(): a literal, the size of an existing container, or a value of at most 32 bits is below it
+        args = [a for a in n.get("args", []) if not (isinstance(a, dict) and a.get("k") == "defarg")]
+        a0 = ir.unwrap(args[0]) if args else None
+        while isinstance(a0, dict) and a0.get("k") == "cast":
+            inner = ir.unwrap(a0.get("e"))
+            if isinstance(inner, dict) and (inner.get("bits") or 64) <= 32:
+                return True, "%s(%s): a value of %d bits is below max_size()" % (nm, fmt(a0)[:30], inner.get("bits") or 0)
+            a0 = inner
+        if isinstance(a0, dict) and a0.get("k") == "lit":
+            return True, "%s(%s): a constant" % (nm, fmt(a0))
+        if isinstance(a0, dict) and (a0.get("bits") or 64) <= 32:
+            return True, "%s(%s): a value of %d bits is below max_size()" % (nm, fmt(a0)[:30], a0.get("bits"))
+        if isinstance(a0, dict) and a0.get("k") == "call" and short(a0.get("name") or "") in ("size", "length") and a0.get("this") is not None:
+            return True, "%s(%s): the size of an existing container" % (nm, fmt(a0)[:30])
+        return False, "the amount `%s` is a caller-supplied number: above max_size() it throws std::length_error before a single token is looked at" % (fmt(a0)[:40] if a0 is not None else "?")
     if nm in ("compare", "erase", "replace", "insert", "copy"):
         # basic_string::f(pos, ...) throws out_of_range only for pos > size(): position 0 is always valid
         args = [a for a in n.get("args", []) if not (isinstance(a, dict) and a.get("k") == "defarg")]
